@@ -29,6 +29,7 @@ type Pack struct {
 	TimeoutS   int      `json:"timeout_s"`
 	Replays    []ReplayTemplate `json:"replay_templates"`
 	Effects    []EffectRule     `json:"effects"`
+	SafetyRules []string        `json:"safety_rules"` // opt-in safety rules, e.g. "map-key-hashable" (see hashable.go)
 }
 
 type KnownFinding struct {
@@ -131,6 +132,15 @@ func cmdCheck(repo, verifDir, id, tier string) int {
 		return 2
 	}
 	e.tier = tier
+	for _, r := range pack.SafetyRules {
+		switch r {
+		case "map-key-hashable":
+			hashableRuleOn = true
+		default:
+			fmt.Fprintln(os.Stderr, "gsv: unknown safety rule in pack:", r)
+			return 2
+		}
+	}
 	e.timeoutS = 30
 	if pack.TimeoutS > 0 {
 		e.timeoutS = pack.TimeoutS
